@@ -451,6 +451,20 @@ func (w *world) advance(d time.Duration) {
 // ---------------------------------------------------------------------
 
 func (w *world) checkQuiescent() {
+	if w.prof.property != "C18" {
+		// The accounting oracles belong to C18 and are decided by its
+		// own test function; here they must not end a case before the
+		// oracle of this property had its say.
+		defer func() {
+			if r := recover(); r != nil {
+				if v, isV := r.(violation); isV && v.class == "C18" {
+					w.label("c18_accounting_mismatch_left_to_the_C18_test")
+					return
+				}
+				panic(r)
+			}
+		}()
+	}
 	leaves := w.reg.all()
 	if len(leaves) != len(w.m.leaves) {
 		w.fail("C18", "the file allocator created %d files, the replies imply %d", len(leaves), len(w.m.leaves))
